@@ -106,6 +106,7 @@ package compressor
 // Interface-level contract used by callers of a Compressor (assumed there; the snappy
 // implementation used by the storage engine satisfies the size bound: snappy.MaxEncodedLen).
 //@ trusted func (Compressor).Compress(c, data) (out, err)
+//@   ensures U_is_snappy(c) == 1 ==> err == nil
 //@   ensures err == nil ==> len(out) <= 32 + len(data) + len(data) / 6
 //@   ensures err == nil && len(out) > 0 ==> fresh(out)
 //@ trusted func (Compressor).Decompress(c, data) (out, err)
